@@ -209,7 +209,8 @@ def run_case(c):
     x0, y0 = x.copy(), y.copy()
     st, v = call(bct.nbs_bct, x, y, thr, k=k, tail=tail, paired=paired, seed=rec, t=120.0)
     out['status'] = st
-    if st == 'timeout':
+    if st == 'timeout':      # nbs_bct is a bounded loop: no return within 120 s on <= 6 nodes / k <= 50 is a failure
+        F.append(('returns-within-budget', {'budget_s': 120.0}, {'degenerate_two_sample': False}))
         return out
     line = 'nbs n=%d nx=%d ny=%d x=%s y=%s thr=%s tail=%s paired=%d k=%d draws=%s' % (
         n, nx, ny, mat_str(c['x']), mat_str(c['y']), frac_str(thr), tail, int(paired), k, ','.join(str(d) for d in rec.flat()) or '-')
@@ -386,6 +387,8 @@ def main():
             ck.violation('nbs_bct', pred, {'case': c, 'info': info}, cond)
         if r['line'] is not None and r['expected'] is not None:
             lines.append(r['line']); meta.append((c, r['expected']))
+    if not ck.replay and not ck.dist.get('status:ok'):
+        ck.corr_break('nbs_bct never returned normally in this run', {'statuses': {k_: v_ for k_, v_ in ck.dist.items() if k_.startswith('status:')}})
     if ok:
         try:
             mal = [] if ck.replay else malformed_stream(ck.rs)
